@@ -365,7 +365,10 @@ func (m *matcher) findMatches(known *knownValue) {
 			for i, tok := range m.unknown.Tokens {
 				if tok.Offset == a[0] {
 					start = i
-				} else if tok.Offset >= a[len(a)-1]-len(tok.Text) {
+				}
+				// The first token of the occurrence can also be its last one
+				// (a single-token value), so this is not an "else".
+				if tok.Offset >= a[len(a)-1]-len(tok.Text) {
 					end = i
 					break
 				}
